@@ -56,6 +56,32 @@ LIST_KNOBS = [(["t4", "cache", "namespaces"], ["t2:semantic"]), (["t2", "tiers"]
 BAD_ELEMS: List[Any] = [[], {}, ["t2:semantic"], {"k": 1}, None, 5, 1.5, float("nan"), True, "", " ", "unknown:ns"]
 
 
+# every numeric knob of the v1 tree (the validator's own defaults plus the knobs it documents without a default), and a ladder of
+# magnitudes around the limits a validator typically draws (powers of ten, word sizes, open/closed unit interval ends)
+EXTRA_NUMERIC = ["t1.iter_cap", "t1.queue_budget", "t1.node_budget", "t1.radius_cap", "t1.relax_cap", "t1.decay.rate", "t1.decay.floor", "t1.decay.alpha",
+                 "t2.exact_recent_days", "t2.clusters_top_m", "t2.residual_cap_per_turn", "t3.tokens", "t3.dialogue.include_top_k_snippets",
+                 "t3.policy.tau_high", "t3.policy.tau_low", "t3.policy.epsilon_edit", "t2.quality.mmr.lambda", "t2.quality.mmr.k",
+                 "t2.quality.fusion.alpha_semantic", "t2.quality.lexical.bm25_k1", "t2.quality.lexical.bm25_b", "perf.t1.cache.max_entries", "perf.t1.cache.max_bytes",
+                 "perf.t2.cache.max_entries", "perf.t2.cache.max_bytes", "perf.t1.caps.frontier", "perf.t1.caps.visited", "perf.t1.dedupe_window",
+                 "perf.parallel.max_workers", "scheduler.budgets.t1_pops", "scheduler.budgets.t1_iters", "scheduler.budgets.t2_k", "scheduler.budgets.t3_ops",
+                 "t4.cooldowns.EditGraph", "k_surface"]
+LADDER: List[Any] = [0, 1, 2, 3, 16, 17, 100, 1000, 4096, 65535, 65536, 10**5, 700000, 738000, 800000, 10**6 - 1, 10**6, 10**6 + 1, 10**7, 2**31 - 1, 2**31, 2**63 - 1, 2**63, 2**64,
+                     -1, -2, 0.5, 0.999999, 1.0, 1.000001, 1e-9, 1e-300, 5e-324, -1e-9, -0.0, 0.1 + 0.2, 1e6, 1e9, 1e15, 1e16, 1e18, 1e100, 2.5, "7", "0.5", " 3 ", "1e3"]
+
+
+def _numeric_paths() -> List[List[str]]:
+    out = [x.split(".") for x in EXTRA_NUMERIC]
+
+    def walk(t, pre):
+        for k, v in t.items():
+            if isinstance(v, dict):
+                walk(v, pre + [k])
+            elif isinstance(v, (int, float)) and not isinstance(v, bool):
+                out.append(pre + [k])
+    walk(V.DEFAULTS, [])
+    return sorted(out)
+
+
 def _paths(tree: Any, prefix: Tuple[Any, ...] = ()) -> List[Tuple[Any, ...]]:
     out = []
     if isinstance(tree, dict):
@@ -79,10 +105,18 @@ def generate(seed: int, tier: str) -> Dict[str, Any]:
         if r.chance(0.3):
             E._set_path(base, list(path), copy.deepcopy(val))
     muts = []
-    for _ in range(r.choice([0, 1, 1, 2, 3, 4])):
-        kind = r.choice(["leaf", "leaf", "unknown", "nonstring", "section", "list_elem"])
+    boundary_only = r.chance(0.25)
+    if boundary_only:
+        # an otherwise valid configuration with ONE knob at the edge of what the validator accepts: the turn must still run
+        base = E.valid_cfg(rng.stream("config"), fams, p=0.4)
+        muts.append({"kind": "set", "path": list(r.choice(_numeric_paths())), "value": {"$accepted": r.choice(["max", "max", "min"])}})
+    for _ in range(0 if boundary_only else r.choice([0, 1, 1, 2, 3, 4])):
+        kind = r.choice(["leaf", "leaf", "unknown", "nonstring", "section", "list_elem", "boundary", "boundary"])
         ps = _paths(base)
-        if kind == "leaf" and ps:
+        if kind == "boundary":
+            # either a rung of the ladder, or "the largest / smallest rung the validator accepts here" (resolved against the validator at run time)
+            muts.append({"kind": "set", "path": list(r.choice(_numeric_paths())), "value": r.choice(LADDER) if r.chance(0.5) else {"$accepted": r.choice(["max", "max", "min"])}})
+        elif kind == "leaf" and ps:
             muts.append({"kind": "set", "path": list(r.choice(ps)), "value": r.choice(BAD_LEAVES)})
         elif kind == "list_elem":
             lps = [p for p in ps if isinstance(_get(base, p), list)]
@@ -116,9 +150,38 @@ def _get(tree: Any, path: Tuple[Any, ...]) -> Any:
     return cur
 
 
+def _resolve_accepted(tree: Any, path: List[Any], which: str) -> Any:
+    """Largest / smallest numeric rung that the validator accepts at `path` with the rest of `tree` as it is (None: none accepted)."""
+    rungs = sorted({float(x) if isinstance(x, float) else x for x in LADDER if isinstance(x, (int, float)) and not isinstance(x, bool)}, reverse=(which == "max"))
+    for v in rungs:
+        t = copy.deepcopy(tree)
+        cur = t
+        for k in path[:-1]:
+            if not isinstance(cur.get(k), dict):
+                cur[k] = {}
+            cur = cur[k]
+        cur[path[-1]] = v
+        try:
+            V.validate_config(t)
+            return v
+        except Exception:  # noqa: BLE001
+            continue
+    return None
+
+
 def build(p: Dict[str, Any]) -> Any:
     tree = copy.deepcopy(p["base"])
     for m in p["mutations"]:
+        if isinstance(m.get("value"), dict) and "$accepted" in m["value"]:
+            if not isinstance(tree, dict):
+                continue
+            try:
+                v = _resolve_accepted(tree, list(m["path"]), m["value"]["$accepted"])
+            except Exception:  # noqa: BLE001
+                v = None
+            if v is None:
+                continue
+            m = dict(m, value=v)
         cur = tree
         ok = True
         for k in m["path"][:-1]:
@@ -275,10 +338,17 @@ def execute(p: Dict[str, Any]) -> Dict[str, Any]:
                 bad("range:nan-accepted:%s" % ".".join(path), "%s = %r accepted" % (".".join(path), v))
             elif (lo is not None and v < lo) or (hi is not None and v > hi):
                 bad("range:out-of-range-accepted:%s" % ".".join(path), "%s = %r accepted (documented [%s, %s])" % (".".join(path), v, lo, hi))
-        if not viol:
+        ks0 = norm.get("k_surface", 32)
+        if isinstance(ks0, int) and 65536 < ks0 < 2**61:
+            # an embedding dimension in this band is a memory question (4*k bytes per vector, gigabytes), not a raise;
+            # the harness does not allocate it.  (From 2**61 on the encoder fails at once, without allocating.)
+            stats["skipped_huge_dimension"] = 1
+        elif not viol:
             clock = SimClock(None, "steady")
             with Scratch() as root:
                 with E.EngineEnv(root, clock) as ee:
+                    ks = norm.get("k_surface", 32)
+                    prev_dim = E.set_world_dim(ks if isinstance(ks, int) and not isinstance(ks, bool) and 1 <= ks <= 65536 else 32)
                     try:
                         cfg = E.to_attr(copy.deepcopy(norm))
                         cfg.setdefault("t4", E.AttrDict())["snapshot_dir"] = ee.snap
@@ -291,5 +361,7 @@ def execute(p: Dict[str, Any]) -> Dict[str, Any]:
                         stats["executed"] = 1
                     except Exception as e:  # noqa: BLE001
                         bad("runnable:%s" % _classify_exc(e), "accepted config made a turn raise %r; config: %s" % (e, text[:400]))
+                    finally:
+                        E.set_world_dim(prev_dim)
     return {"violations": viol, "stats": stats, "faults": faults, "nontrivial": bool(p["mutations"]) or bool(stats.get("executed")),
             "key": E.jdigest(text), "sim_s": 0.0, "log": E.jdigest([verdict, viol])}
